@@ -158,6 +158,30 @@ def t3_reexport() -> Iterator[Dict[str, Any]]:
     yield project([mod("pk", pkg=True, ops=[frm("impl", "run", lvl=1), frm("impl", "Inner", lvl=1)], all=["run", "Inner"]),
                    mod("impl", 1, ops=flat(cls("K", body=flat(fn("run"), cls("In"))), alias("run", "K.run"), alias("Inner", "K.In"))),
                    mod("use", 1, ops=flat(frm("pk.impl", "K"), cls("T", "K"), cls("V", "K.In")))], "T3", idiom="alias-of-class-member-reexported")
+    # a re-exported VARIABLE (and a class) copied under another name by a sibling that imports them from the defining module:
+    # whether `timeout = DEFAULT` is an alias or a variable of its own does not depend on DEFAULT having been moved already
+    yield project([mod("pkg", pkg=True), mod("core", 1, ops=flat(var("DEFAULT"), cls("Client", body=[fn("send")]))),
+                   mod("api", 1, ops=[frm("core", "DEFAULT", lvl=1), frm("core", "Client", lvl=1)], all=["DEFAULT", "Client"]),
+                   mod("muser", 1, ops=flat(frm("core", "DEFAULT", lvl=1), frm("core", "Client", lvl=1), alias("timeout", "DEFAULT"),
+                                            alias("factory", "Client"), cls("Session", "factory")))], "T3", idiom="reexported-variable-copied")
+    # a SUB-PACKAGE with modules (and a package) of its own re-exported under another name: everything below follows
+    yield project([mod("pkg", pkg=True, ops=[frm("", "_vendor", "vendor", lvl=1), frm("_core", "Widget", lvl=1)], all=["vendor", "Widget"]),
+                   mod("_core", 1, ops=flat(cls("Widget", body=[fn("draw")]))),
+                   mod("_vendor", 1, pkg=True, ops=[frm("", "compat", lvl=1), frm("", "deep", lvl=1)]),
+                   mod("compat", 3, ops=flat(cls("Shim", body=[fn("apply")]), fn("helper"))),
+                   mod("deep", 3, pkg=True, ops=[frm("", "leaf", lvl=1)]),
+                   mod("leaf", 5, ops=flat(cls("Leaf", body=[fn("fall")]))),
+                   mod("use", 1, ops=flat(frm("pkg._vendor.compat", "Shim"), cls("T", "Shim"), frm("pkg", "vendor"), cls("V", "vendor.compat.Shim"),
+                                          cls("W", "vendor.deep.leaf.Leaf"), imp("pkg._vendor.deep.leaf", "lf"), cls("X", "lf.Leaf")))],
+                  "T3", idiom="subpackage-reexported-renamed")
+    # a package containing a module named like itself (shop/shop.py): in a module that binds `shop` to that sub-module, the
+    # qualified names shop.Report / shop._impl.Report written in docstrings still designate the objects of the package
+    yield project([mod("shop", pkg=True, ops=[frm("_impl", "Report", lvl=1), frm("shop", "Shop", lvl=1)], all=["Report"]),
+                   mod("shop", 1, ops=flat(cls("Shop"))),
+                   mod("_impl", 1, ops=flat(cls("Report", body=[fn("render")]))),
+                   mod("views", 1, ops=flat(frm("", "shop", lvl=1), frm("shop", "Report"), cls("SalesReport", "Report"))),
+                   mod("models", 1, ops=flat(frm("shop._impl", "Report"), cls("StoredReport", "Report")))],
+                  "T3", idiom="package-with-module-of-its-own-name")
     # origin lists the name in its own __all__: no move
     yield project([mod("p", pkg=True, ops=[frm("_impl", "X", lvl=1)], all=["X"]),
                    mod("_impl", 1, ops=flat(cls("X")), all=["X"]),
